@@ -75,6 +75,10 @@ QUERIES += [
     'select a, (select count(*) from t1, t2 where t1.a = t2.a) as n from t1',
     'select a from t1 where a in (select a from t1 where b = 1)',
     'select a from t1 as x where exists (select 1 from t1 where b = 2)',
+    # ordering inside OVER (): direction, NULLS FIRST / LAST, lower-case spellings
+    'select a, sum(b) over (order by a desc nulls first) from t1', 'select a, sum(b) over (order by a nulls last) from t1',
+    'select a, count(*) over (partition by b order by a desc) from t1', 'select a, sum(b) over (order by a asc nulls first, b desc nulls last) from t1',
+    'select a, row_number() over (order by b desc nulls last, a) from t1', 'select a, sum(a) over (order by a rows between unbounded preceding and current row) from t1',
     # join chains mixing kinds
     'select t1.a, t2.c, t3.c from t1 left join t2 on t1.a = t2.a join t3 on t3.b = t1.b',
     'select t1.a, t2.c, t3.c from t1 full join t2 on t1.a = t2.a left join t3 on t3.b = t1.b',
